@@ -5,8 +5,9 @@
                          (used by STORE and COPY)
     - [parse_uidset_db]  internal/server/utils/parser.go  ParseUIDSequenceSetWithDB
                          (UID FETCH / UID STORE / UID COPY / UID EXPUNGE)
-    - [fetch_inline]     internal/server/message/fetch.go HandleFetch, the inline
-                         range parser + LIMIT/OFFSET query + response numbering
+    - [valid_seqset]     internal/server/utils/parser.go  ValidSequenceSet
+    - [fetch_inline]     internal/server/message/fetch.go HandleFetch: set resolved by
+                         ParseSequenceSetWithDB, rows walked in order, wanted ones answered
     - [is_sequence_set], [matches_sequence_set], [search_set]
                          internal/server/message/message.go (SEARCH)
     - [uidsearch_set]    internal/server/uid/uid.go handleUIDSearch, branch "UID "
@@ -103,79 +104,91 @@ Definition sql_limit_offset {A} (rows : list A) (limit offset : Z) : list A :=
   let r := zskipn offset rows in
   if limit <? 0 then r else zfirstn limit r.
 
-(** seqNum := k; for rows.Next() { emit (seqNum, uid); seqNum++ } *)
+(** seqNum counts the rows; (seqNum, uid) for each row *)
 Fixpoint label_from (k : Z) (rows : list Z) : list (Z * Z) :=
   match rows with
   | [] => []
   | u :: r => (k, u) :: label_from (k + 1) r
   end.
 
-Definition fetch_bound (x : str) (star_val : Z) : option Z :=
-  if str_eqb x s_star then Some star_val
-  else match atoi x with
-       | Some v => if v <? 1 then None else Some v
-       | None => None
-       end.
+(** utils.ValidSequenceSet: comma-separated elements, each one or two bounds
+    joined by ":", a bound being "*" or a number >= 1 (strconv.Atoi) *)
+Definition valid_bound (x : str) : bool :=
+  if str_eqb x s_star then true
+  else match atoi x with Some n => negb (n <? 1) | None => false end.
 
-(** [None] = tagged BAD; [Some l] = the untagged FETCH responses as
+Definition valid_seqset (s : str) : bool :=
+  forallb (fun part =>
+             let bounds := split_byte part c_colon in
+             if Nat.ltb 2 (length bounds) then false else forallb valid_bound bounds)
+          (split_byte s c_comma).
+
+(** HandleFetch (after "FETCH resolves its sequence set like STORE and COPY"):
+    BAD for a malformed set; the numbers of ParseSequenceSetWithDB go into the
+    map [wanted], [last] is the largest; nothing addressed => OK without data;
+    otherwise the rows ORDER BY uid LIMIT last are walked with seqNum = 1, 2, ...
+    and the wanted ones are answered.
+    [None] = tagged BAD; [Some l] = the untagged FETCH responses as
     (sequence number in the response, uid of the row) *)
 Definition fetch_inline (sequence : str) (uids : list Z) : option (list (Z * Z)) :=
-  let total := Z.of_nat (length uids) in
-  match split_byte sequence c_colon with
-  | [a; b] =>
-    match fetch_bound a (-1) with
-    | None => None
-    | Some start =>
-      match fetch_bound b total with
-      | None => None
-      | Some end_ =>
-        let start := if start =? -1 then end_ else start in
-        let end_ := if end_ <? start then start else end_ in
-        Some (label_from start (sql_limit_offset uids (end_ - start + 1) (start - 1)))
-      end
-    end
-  | _ =>
-    if str_eqb sequence (S_ "1:*") || str_eqb sequence s_star then Some (label_from 1 uids)
-    else
-      match atoi sequence with
-      | None => None
-      | Some n =>
-        (* parseErr != nil || msgNum < 1 => BAD; start, useRange = msgNum, true *)
-        if n <? 1 then None else Some (label_from n (sql_limit_offset uids 1 (n - 1)))
-      end
-  end.
+  if negb (valid_seqset sequence) then None
+  else
+    let seqs := parse_seqset_db sequence (Z.of_nat (length uids)) in
+    let last := fold_right Z.max 0 seqs in
+    if last =? 0 then Some []
+    else Some (filter (fun p => existsb (Z.eqb (fst p)) seqs)
+                      (label_from 1 (sql_limit_offset uids last 0))).
 
-(** ---- SEARCH: isSequenceSet / matchesSequenceSet ---- *)
+(** ---- SEARCH: isSequenceSet / matchesSequenceSet / sequenceSetBound ---- *)
 
 Definition is_sequence_set (token : str) : bool :=
   if str_eqb token s_star then true
   else
-    forallb (fun c => Ascii.eqb c c_colon || Ascii.eqb c c_star || is_digit c) token
+    forallb (fun c => Ascii.eqb c c_colon || Ascii.eqb c c_star || Ascii.eqb c c_comma || is_digit c) token
     && match token with
        | c :: _ => is_digit c || Ascii.eqb c c_star
        | [] => false
        end.
 
-Definition matches_sequence_set (seq_num : Z) (set : str) : bool :=
-  if negb (contains_byte set c_colon) && negb (str_eqb set s_star) then
-    match atoi set with Some n => n =? seq_num | None => false end
-  else if str_eqb set s_star then true
-  else
-    match split_byte set c_colon with
-    | [a; b] =>
-      let start := if str_eqb a s_star then seq_num else atoi_lossy a in
-      let end_ := if str_eqb b s_star then 999999 else atoi_lossy b in
-      (start <=? seq_num) && (seq_num <=? end_)
-    | _ => false
-    end.
+(** a positive number, or "*" for the largest number in use; [None] = not ok *)
+Definition sequence_set_bound (x : str) (largest : Z) : option Z :=
+  if str_eqb x s_star then Some largest
+  else match atoi x with
+       | Some n => if 0 <? n then Some n else None
+       | None => None
+       end.
+
+Definition matches_part (num largest : Z) (part : str) : bool :=
+  match split_byte part c_colon with
+  | [a] =>
+    match sequence_set_bound a largest with
+    | Some lo => (lo <=? num) && (num <=? lo)
+    | None => false
+    end
+  | [a; b] =>
+    match sequence_set_bound a largest with
+    | Some lo =>
+      match sequence_set_bound b largest with
+      | Some hi =>
+        let '(lo, hi) := if hi <? lo then (hi, lo) else (lo, hi) in
+        (lo <=? num) && (num <=? hi)
+      | None => false
+      end
+    | None => false
+    end
+  | _ => false                      (* len(bounds) > 2: continue *)
+  end.
+
+Definition matches_sequence_set (num : Z) (set : str) (largest : Z) : bool :=
+  existsb (matches_part num largest) (split_byte set c_comma).
 
 (** [SEARCH <token>] for a token over the sequence-set alphabet (digits, '*',
     ':', ','): evaluateTokens takes the sequence-set branch when
-    isSequenceSet holds, otherwise the token is no search key and is skipped
-    ("default: i++"), i.e. every message matches. *)
+    isSequenceSet holds (msg.maxSeqNum = number of messages), otherwise the
+    token is no search key and is skipped ("default: i++"). *)
 Definition search_set (token : str) (total : Z) : list Z :=
   let t := to_upper token in
-  if is_sequence_set t then filter (fun i => matches_sequence_set i t) (zrange 1 total)
+  if is_sequence_set t then filter (fun i => matches_sequence_set i t total) (zrange 1 total)
   else zrange 1 total.
 
 (** ---- UID SEARCH UID <set> (handleUIDSearch, branch Contains "UID ") ---- *)
